@@ -253,7 +253,17 @@ def run_ts_case(fi, oi, opi, form):
         return True
     custom = {"type": "x-acme-widget", "spec_version": "2.1", "id": "x-acme-widget--311b2d2d-f010-4473-83ec-1edf84858f4c",
               "created": stix2.utils.format_datetime(inst(oi)), "modified": stix2.utils.format_datetime(inst(oi))}
-    return bool(MemorySource([custom], allow_custom=True).query([Filter("modified", op, ftext)])) == exp
+    if bool(MemorySource([custom], allow_custom=True).query([Filter("modified", op, ftext)])) != exp:
+        return False
+    if opi == 0:
+        # 'in' over timestamp texts / datetimes: a member exactly when some element denotes the object's instant
+        oinst, otext = TSF[(fi + 7) % NTSF]
+        for vals, insts in (([ftext], [finst]), ([otext, ftext], [oinst, finst]), ([inst(finst)], [finst]), ([otext], [oinst]), ([otext, inst(finst), "x"], [oinst, finst])):
+            exp_in = any(inst(i) == inst(oi) for i in insts)
+            for target in (ind, custom):
+                if bool(MemorySource([target], allow_custom=True).query([Filter("modified", "in", vals)])) != exp_in:
+                    return False
+    return True
 
 
 # ---- filesystem search optimisation: sound and exact
@@ -324,7 +334,36 @@ def fs_source():
 
 
 def run_opt_case(spec, route=0):
-    filters = [mkf(*s) for s in spec]
+    return run_opt_filters([mkf(*s) for s in spec], route)
+
+
+# filter values of another kind than the shortcut expects: text given to "in" (substring semantics), numbers, mixed lists
+ODD = [("type", "in", "xidentityx"), ("type", "in", "identity"), ("type", "in", "identity,malware"), ("id", "in", "x" + IDS[0] + "y"), ("id", "in", IDS[2]),
+       ("id", "=", 5), ("id", "in", [5]), ("id", "in", [IDS[0], 5]), ("type", "in", ["identity", 5]), ("id", "!=", 5), ("type", "!=", 5), ("type", "=", 5),
+       ("id", "in", [IDS[0], "nodashes"]), ("id", "=", "nodashes"), ("type", "in", [("identity",)]), ("id", "=", True), ("type", "in", {"identity": 1})]
+NODD = len(ODD)
+
+
+def optimiser_odd(oi: int, p: int, o: int, v: int, first: bool) -> bool:
+    """
+    pre: 0 <= oi < NODD and 0 <= p <= 1 and 0 <= o <= 4 and 0 <= v <= 3
+    post: _
+    """
+    oi, p, o, v, first = pick(oi, NODD), pick(p, 2), pick(o, 5), pick(v, 4), pickb(first)
+    with Native():
+        try:
+            odd = Filter(*ODD[oi])
+        except (ValueError, TypeError):
+            odd = None                      # refused when the filter is built
+        ok = True
+        if odd is not None:
+            fl = [odd] if o == 4 else ([odd, mkf(p, o, v)] if first else [mkf(p, o, v), odd])
+            ok = run_opt_filters(fl, 0)
+    V.reached()
+    return ok
+
+
+def run_opt_filters(filters, route=0):
     at, ai = fs._find_search_optimizations(filters)
     for o in POP:
         matches = next(apply_common_filters([o], filters), None) is not None
